@@ -173,7 +173,10 @@ def streams(tier, rng, P, only=None, cases=None):
                "t.Random=4 t%s " % M, "v.Random=4 v%s " % M, "q.Random=4 q%s " % M, "o.Random=4 o%s " % M, "t.Random=4 t%s " % N, "SysEx={%s,%s} " % (M, M), "SysEx$=f0,{%s,%s},f7; " % (M, M),
                # ... and at the other edge: zero and tiny values of what later commands divide by or step with
                "TimeBase(0) ", "TimeBase(1) ", "TimeBase=3 ", "TimeBase(-5) ", "TimeBase(%s) " % M, "TimeBase(%s) " % N, "TimeSignature(0,0) ", "TimeSignature(1,1) ", "l%0 ", "l0 ", "q0 ", "v0 ", "Tempo(0) ",
-               "MeasureShift(%s) " % N, "TimeBase(2) TimeSignature(1,64) "]
+               "MeasureShift(%s) " % N, "TimeBase(2) TimeSignature(1,64) ",
+               # negative and extreme slur values in every mode
+               "Slur(0,-1) ", "Slur(0,-48) ", "Slur(1,-1) ", "Slur(2,-5) ", "Slur(3,-7) ", "Slur(0,%s) " % N,      # (a glide of 2^63 ticks is work the program asks for: not generated)
+                "Slur(1,%s) " % N, "Slur(2,%s) " % N, "INT NS=0-48 Slur(0,NS) "]
         suf = ["", "c...", "c....", "c..", "c^%" + M + "..", "c^%" + M + "...", "c^%" + M + "....", "r....", "n60,4...", "'ce'4...", "{cd}4....", "l4... c", "c", "c&d e", "'ce' d", "{cd}4", "q++ c", "q-- c", "v++ c", "( c", ") c", "> c", "< c", "` c", '" c', "q__5 c", "v__5 c", "r c", "n60", "n60& n62", "c^c", "l4 c", "[3 c]",
                "Sub{c} d", "PLAY({c},{d})", "TrackSync c", "? c", "y1,5 c", "y1.onNote(1,2) c", "Cresc(1) c", "PB.T(0,1,!8) c", "M.onTime(0,9,9) c", "TempoChange(100,120,!4) c", "TimeSig(3,4) TIME(2:1:0) c"]
         for pi, p_ in enumerate(pre):
